@@ -9,9 +9,12 @@ import (
 	"bytes"
 	"crypto"
 	"crypto/ecdh"
+	"crypto/ecdsa"
+	"crypto/ed25519"
 	"crypto/hmac"
 	crand "crypto/rand"
 	"crypto/sha256"
+	"crypto/x509"
 	"fmt"
 	"hash"
 	"net"
@@ -60,6 +63,15 @@ type Rogue13 struct {
 	cAPNext    uint64
 	Note       string
 	ClientFin  bool
+	// RequestClientCert: the (honest) reference server sends a CertificateRequest; the client's
+	// Certificate, CertificateVerify and Finished are then checked against the reference formulas
+	RequestClientCert bool
+	// Verdict of the reference server on the client's final flight ("" = nothing wrong so far)
+	ClientFlightBad string
+	ClientFinOK     bool
+	ClientCertOK    bool
+	seenHs          map[uint16]bool
+	clientLeaf      *x509.Certificate
 }
 
 func NewRogue13(s *Sim, n *SimNet, self, peer net.Addr) *Rogue13 {
@@ -124,8 +136,13 @@ func (r *Rogue13) OnClientDatagram(em *Emission) {
 		if err != nil {
 			continue
 		}
+		if ct == 22 && len(plain) > 12 {
+			r.checkClientMessage(plain)
+		}
 		if ct == 22 && len(plain) > 12 && plain[0] == 20 {
 			r.ClientFin = true
+		}
+		if ct == 22 && len(plain) > 12 {
 			if !r.acked[seq] {
 				r.acked[seq] = true
 			}
@@ -243,6 +260,12 @@ func (r *Rogue13) answerHello(ch *HsMsg) error {
 
 	ee := []byte{0, 0}
 	r.transcript = append(r.transcript, canonical13(8, ee)...)
+	var certReq []byte
+	if r.RequestClientCert {
+		// certificate_request_context = empty; extensions: signature_algorithms {ecdsa_secp256r1_sha256, ed25519}
+		certReq = []byte{0, 0, 10, 0, 13, 0, 6, 0, 4, 0x04, 0x03, 0x08, 0x07}
+		r.transcript = append(r.transcript, canonical13(13, certReq)...)
+	}
 	var cert []byte
 	if len(r.Chain) > 0 {
 		var list []byte
@@ -283,7 +306,11 @@ func (r *Rogue13) answerHello(ch *HsMsg) error {
 	d0 := plaintextRecord(22, 0, dtlsHs(2, 0, sh))
 	d1rec := keys.Seal13(2, 0, nil, 22, dtlsHs(8, 1, ee), 0)
 	var d2rec []byte
-	if cert != nil && certVerify != nil {
+	if certReq != nil && cert != nil && certVerify != nil {
+		d2rec = append(keys.Seal13(2, 1, nil, 22, dtlsHs(13, 2, certReq), 0), keys.Seal13(2, 2, nil, 22, dtlsHs(11, 3, cert), 0)...)
+		d2rec = append(d2rec, keys.Seal13(2, 3, nil, 22, dtlsHs(15, 4, certVerify), 0)...)
+		d2rec = append(d2rec, keys.Seal13(2, 4, nil, 22, dtlsHs(20, 5, fin), 0)...)
+	} else if cert != nil && certVerify != nil {
 		d2rec = append(keys.Seal13(2, 1, nil, 22, dtlsHs(11, 2, cert), 0), keys.Seal13(2, 2, nil, 22, dtlsHs(15, 3, certVerify), 0)...)
 		d2rec = append(d2rec, keys.Seal13(2, 3, nil, 22, dtlsHs(20, 4, fin), 0)...)
 	} else if cert != nil {
@@ -329,4 +356,73 @@ func (r *Rogue13) OpenAppData(data []byte) [][]byte {
 	}
 
 	return out
+}
+
+// checkClientMessage judges one decrypted handshake record of the client's final flight against
+// the reference formulas: Certificate (parsable leaf), CertificateVerify (signature by the leaf key
+// over 64 spaces, "TLS 1.3, client CertificateVerify", 0, Transcript-Hash), Finished
+// (HMAC(finished_key(client_handshake_traffic_secret), Transcript-Hash)). Each message is taken
+// into the transcript once, in message_seq order as the client sends them.
+func (r *Rogue13) checkClientMessage(plain []byte) {
+	for _, f := range ParseHsFrags(plain) {
+		if f.FLen != f.Length || f.Off != 0 {
+			r.ClientFlightBad = "client message fragmented (not handled by the reference server)"
+
+			return
+		}
+		if r.seenHs == nil {
+			r.seenHs = map[uint16]bool{}
+		}
+		if r.seenHs[f.MsgSeq] {
+			continue // retransmission
+		}
+		r.seenHs[f.MsgSeq] = true
+		h := r.suite.h
+		switch f.Type {
+		case 11: // Certificate: context(1) list(3) {cert(3) ext(2)}
+			b := f.Body
+			if len(b) >= 4+3 && int(b[0]) == 0 {
+				l := int(b[4])<<16 | int(b[5])<<8 | int(b[6])
+				if len(b) >= 7+l && l > 0 {
+					if leaf, err := x509.ParseCertificate(b[7 : 7+l]); err == nil {
+						r.clientLeaf = leaf
+					}
+				}
+			}
+			if r.clientLeaf == nil && r.RequestClientCert {
+				r.ClientFlightBad = "client Certificate message carries no parsable leaf"
+			}
+		case 15: // CertificateVerify
+			content := append(bytes.Repeat([]byte{0x20}, 64), []byte("TLS 1.3, client CertificateVerify")...)
+			content = append(content, 0)
+			content = append(content, hashOf(h, r.transcript)...)
+			ok := false
+			if len(f.Body) >= 4 && r.clientLeaf != nil {
+				scheme := uint16(f.Body[0])<<8 | uint16(f.Body[1])
+				sig := f.Body[4:]
+				switch pub := r.clientLeaf.PublicKey.(type) {
+				case *ecdsa.PublicKey:
+					d := sha256.Sum256(content)
+					ok = scheme == 0x0403 && ecdsa.VerifyASN1(pub, d[:], sig)
+				case ed25519.PublicKey:
+					ok = scheme == 0x0807 && ed25519.Verify(pub, content, sig)
+				}
+			}
+			if !ok {
+				r.ClientFlightBad = "client CertificateVerify does not verify under the RFC 8446 4.4.3 content and the presented leaf key"
+			} else {
+				r.ClientCertOK = true
+			}
+		case 20: // Finished
+			fk := ExpandLabel13(h, r.cHS, "finished", nil, r.suite.hlen)
+			mac := hmac.New(h, fk)
+			mac.Write(hashOf(h, r.transcript))
+			if !hmac.Equal(mac.Sum(nil), f.Body) {
+				r.ClientFlightBad = fmt.Sprintf("client Finished verify_data %x differs from HMAC(finished_key(c hs traffic), transcript hash) %x", f.Body, mac.Sum(nil))
+			} else {
+				r.ClientFinOK = true
+			}
+		}
+		r.transcript = append(r.transcript, canonical13(f.Type, f.Body)...)
+	}
 }
